@@ -93,9 +93,9 @@ def itemFacts (p : String) (d : Dict) : List Fact := d.map fun kv => (p ++ "/" +
 def attrFacts (p : String) (attrs : List String) (d : Dict) : List Fact :=
   attrs.map fun k => (p ++ "/" ++ k, .str (dictGet d k))
 
-def anchorAttrs := ["x", "y", "name", "color", "identifier"]
-def guidelineAttrs := ["x", "y", "angle", "name", "color", "identifier"]
-def imageAttrs := ["fileName", "xScale", "xyScale", "yxScale", "yScale", "xOffset", "yOffset", "color"]
+def drvAnchorAttrs := ["x", "y", "name", "color", "identifier"]
+def drvGuidelineAttrs := ["x", "y", "angle", "name", "color", "identifier"]
+def drvImageAttrs := ["fileName", "xScale", "xyScale", "yxScale", "yScale", "xOffset", "yOffset", "color"]
 
 def ePoint (q : Point) : SExp := .list [.str q.x, .str q.y, .str q.seg, .str q.smooth, .str q.name, .str q.ident]
 def ePen (q : PenRec) : SExp := .list [.str q.ident, .list (q.points.map ePoint)]
@@ -125,7 +125,7 @@ def glyphFacts (p : String) (g : Glyph) : List Fact :=
    (p ++ "/height", .str g.height), (p ++ "/note", .str g.note),
    (p ++ "/@shallow", fb g.shallow.isSome)] : List Fact)
   ++ itemFacts (p ++ "/lib") g.lib.items ++ itemFacts (p ++ "/tempLib") g.tempLib.items
-  ++ attrFacts (p ++ "/image") imageAttrs g.imageObj.items
+  ++ attrFacts (p ++ "/image") drvImageAttrs g.imageObj.items
   ++ (idx pens).map (fun (ip : String × PenRec) => (p ++ "/pen/" ++ ip.1, ePen ip.2))
   ++ [(p ++ "/pen/n", .str (ns pens.length))]
   -- after the full load
@@ -134,9 +134,9 @@ def glyphFacts (p : String) (g : Glyph) : List Fact :=
       [(p ++ "/k/" ++ ic.1, SExp.list [.str ic.2.base, .str ic.2.transformation, .str ic.2.ident])]
       ++ wiring (p ++ "/k/" ++ ic.1) ic.2.parent ic.2.observed)
   ++ [(p ++ "/k/n", .str (ns f.components.length))]
-  ++ (idx f.anchors).flatMap (fun (ic : String × DictObj) => attrObjFacts (p ++ "/a/" ++ ic.1) anchorAttrs ic.2)
+  ++ (idx f.anchors).flatMap (fun (ic : String × DictObj) => attrObjFacts (p ++ "/a/" ++ ic.1) drvAnchorAttrs ic.2)
   ++ [(p ++ "/a/n", .str (ns f.anchors.length))]
-  ++ (idx f.guidelines).flatMap (fun (ic : String × DictObj) => attrObjFacts (p ++ "/g/" ++ ic.1) guidelineAttrs ic.2)
+  ++ (idx f.guidelines).flatMap (fun (ic : String × DictObj) => attrObjFacts (p ++ "/g/" ++ ic.1) drvGuidelineAttrs ic.2)
   ++ [(p ++ "/g/n", .str (ns f.guidelines.length))]
   ++ regFacts p f.reg
 
@@ -173,7 +173,7 @@ def fontFacts (f : Font) : List Fact :=
   ++ itemFacts "info" (f.info.items.filter (fun kv => kv.2 ≠ pyNone))
   ++ wiring "info" f.info.parent f.info.observed
   ++ layerSetFacts "layers" f.layers
-  ++ (idx f.guidelines).flatMap (fun (ic : String × DictObj) => attrObjFacts ("fg/" ++ ic.1) guidelineAttrs ic.2)
+  ++ (idx f.guidelines).flatMap (fun (ic : String × DictObj) => attrObjFacts ("fg/" ++ ic.1) drvGuidelineAttrs ic.2)
   ++ [("fg/n", .str (ns f.guidelines.length))]
   ++ regFacts "font" f.reg
   ++ propFacts f.propagation
@@ -224,15 +224,15 @@ def roundtrip (kind : String) (obj : SExp) (wl bl : Option (List String)) (inFon
   | "anchor", false => do
     let o ← pDictObj obj
     let r := DictObj.deser (o.ser wl bl) {}
-    some (okFacts (attrFacts "anchor" anchorAttrs r.items ++ wiring "anchor" r.parent r.observed))
+    some (okFacts (attrFacts "anchor" drvAnchorAttrs r.items ++ wiring "anchor" r.parent r.observed))
   | "guideline", false => do
     let o ← pDictObj obj
     let r := DictObj.deser (o.ser wl bl) {}
-    some (okFacts (attrFacts "guideline" guidelineAttrs r.items ++ wiring "guideline" r.parent r.observed))
+    some (okFacts (attrFacts "guideline" drvGuidelineAttrs r.items ++ wiring "guideline" r.parent r.observed))
   | "image", false => do
     let o ← pDictObj obj
     let r := Image.deser (o.ser wl bl) { items := imageDefaults }
-    some (okFacts (attrFacts "image" imageAttrs r.items ++ wiring "image" r.parent r.observed))
+    some (okFacts (attrFacts "image" drvImageAttrs r.items ++ wiring "image" r.parent r.observed))
   | "lib", false | "kerning", false | "groups", false => do
     let o ← pDictObj obj
     let r := DictObj.deser (o.ser wl bl) {}
